@@ -85,6 +85,11 @@ def instantiations(tier, seed):
         out.append({"model": cb, "added": [plain(0), plain(1)], "clash": None})
         out.append({"model": c, "added": [grp(0), grp(0)], "clash": "rule"})
         out.append({"model": c, "added": [F.N("All", plain(3), F.AM(1, V("g4"), V("b"), id="G9"))], "clash": None})
+    # a configurator that names a top-level item twice, as plain id strings (errors() complains about it, add() must still agree with
+    # direct construction: C18 is not restricted to validated configurators)
+    dup = cfg.SC(dict(F.V("x"), str=True), dict(F.V("x"), str=True), dict(F.V("y"), str=True), cfg.cXor(F.V("p"), F.V("q"), id="X", default=["p"]))
+    out.append({"model": dup, "added": [plain(0)], "clash": None, "allow_invalid": True})
+    out.append({"model": dup, "added": [plain(0), F.N("Imply", F.V("x"), F.N("All", F.V("n1"), F.V("n6"), id="Q1"), id="N1")], "clash": None, "allow_invalid": True})
     # top-level items: configurators given plain items at the top level
     c = cfg.SC(F.V("a"), F.V("b"), cfg.cXor(F.V("x"), F.V("y"), id="X", default=["x"]))
     out.append({"model": c, "added": [F.N("Any", F.V("n1"), F.V("n2"), id="a")], "clash": "item"})
@@ -134,7 +139,7 @@ def run_inst(spec, run):
             pl.build(ns, r, plh.mid_env(allspec))
     except Exception as e:   # noqa
         return run.skipped("constructor rejects the instantiation: %s" % type(e).__name__)
-    if rep.errors() != []:
+    if rep.errors() != [] and not spec.get("allow_invalid"):
         return run.skipped("base configurator fails validation")
 
     def fn(ctx):
